@@ -270,6 +270,12 @@ def evaluate(run, props):
         so.check_c09(an)
     if 'C10' in props:
         so.check_c10(an)
+    if 'C08' in props:
+        so.check_c08(an)
+    if 'C12' in props:
+        so.check_c12(an)
+    if 'C11' in props:
+        so.check_c11(an)
     return an
 
 
